@@ -102,7 +102,11 @@ func (s *server) ServeHTTP(w http.ResponseWriter, r *http.Request) {
 			w.WriteHeader(http.StatusNotFound)
 			return
 		}
-		switch s.getMode {
+		mode := s.getMode
+		if s.getOff >= len(b) {
+			mode = "" // nothing is cut (and a complete response must leave the connection reusable)
+		}
+		switch mode {
 		case "":
 			w.Write(b)
 		case "body-short": // a well-formed response carrying only a prefix
@@ -258,6 +262,9 @@ func wellFormedTar(b []byte) bool {
 	}
 }
 
+var storeRetries int
+var logMem *logging.MemoryBackend
+var last string
 var kept string // id of the tree whose complete entry is in the cache (retrieve cases)
 var faultlessMiss int
 var faultlessMissExample string
@@ -356,18 +363,24 @@ func runCase(c Case) (class, detail string, got *tree.Node) {
 	}
 	// retrieve faults: a complete entry first
 	if !reuse {
-		theCache(c, storeCmd, retrieveCmd).Store(target, key, outs)
-		if c.Cache == "cmd" {
-			procs += 3
+		// (retried: with HTTPRetry=0 a PUT that happens to be written to a connection the server has just closed fails)
+		for try := 0; try < 3 && stored(c) == nil; try++ {
+			theCache(c, storeCmd, retrieveCmd).Store(target, key, outs)
+			if c.Cache == "cmd" {
+				procs += 3
+			}
+			if try > 0 {
+				storeRetries++
+			}
 		}
 		kept = id
 	}
 	entry := stored(c)
 	if entry == nil {
-		logging.SetLevel(logging.DEBUG, "")
-		logging.SetLevel(logging.DEBUG, "plz")
-		theCache(c, storeCmd, retrieveCmd).Store(target, key, outs)
-		lib.Fatal("faultless store committed nothing for %s (%s cache, %d PUTs seen so far, %d evaluations)", c.Tree.Canon(), c.Cache, srv.puts, srv.gets)
+		for n := logMem.Head(); n != nil; n = n.Next() {
+			last = n.Record.Message()
+		}
+		lib.Fatal("last log message: %s\n"+"faultless store committed nothing for %s (%s cache, %d PUTs seen so far, %d evaluations)", c.Tree.Canon(), c.Cache, srv.puts, srv.gets)
 	}
 	if c.Off < 0 || c.Off > len(entry) {
 		return "", "n/a", nil
@@ -409,6 +422,7 @@ func runCase(c Case) (class, detail string, got *tree.Node) {
 func main() {
 	r := lib.Start("C13", "fault_enumeration")
 	lib.Quiet()
+	logMem = logging.InitForTesting(logging.WARNING)
 	if r.Replay != "" {
 		r.Replay, _ = filepath.Abs(r.Replay)
 	}
@@ -630,7 +644,7 @@ func main() {
 		Extra: map[string]any{"trees": len(trees), "http_evaluations": httpEvals, "cmd_evaluations": evals - httpEvals, "processes_spawned_approx": procs,
 			"faulted_stores_that_committed_an_entry": storeFaultCommitted, "faulted_or_faultless_stores_that_committed_nothing": storeFaultNothing,
 			"faulted_retrieves_reported_as_miss": retrieveFaultMiss, "cut_retrieves_that_still_restored_everything": retrieveFaultCompleteHit,
-			"violations_by_fault_kind": byFault,
+			"violations_by_fault_kind": byFault, "harness_store_retries": storeRetries,
 			"timing_dependent_cmd_faulted_stores_whose_stdin_stream_was_a_complete_archive": cmdStreamWellFormedAfterCancel,
 			"faultless_round_trips_that_missed": faultlessMiss, "faultless_miss_example": faultlessMissExample,
 			"space": fmt.Sprintf("names %q contents %q symlink targets %q depth<=%d entries<=%d + one tree with a 70 KB file; declarations top|leaf; command cache: store faults on %d trees, retrieve cuts on %d trees",
